@@ -114,3 +114,16 @@ Proof.
   apply (unknown_code_is_error (b_gi b) (wf_no_start_in_rhs _ Hwf) (wf_rule0_lhs _ Hwf) (wf_no_eof_in_rhs _ Hwf) (wf_rule0_rhs _ Hwf)
            (wf_eof_terminal _ Hwf) (wf_productive_all _ Hwf (tables_productive _ t Ht)) (wf_nsyms _ Hwf) t Ht).
 Qed.
+
+(* C08 from the text: all output variants (global / object, packed / plain table) compute the same thing on every input, once
+   the packed lookups agree with the matrix (text_packed_agrees) *)
+From YG Require Import Drivers DriverSim Values.
+Theorem text_variants_agree s b t : generate_text s = GOk b t -> packed_agrees (b_gi b) t ->
+  forall (v1 v2 : variant) (act : semact) (fuel : nat) (inp : list tok),
+    (forall x, In x inp -> fst x < gi_nsyms (b_gi b)) ->
+    parse v1 t (gi_rules (b_gi b)) act fuel inp = parse v2 t (gi_rules (b_gi b)) act fuel inp.
+Proof.
+  intros H. pose proof (text_wf s b t H) as Hwf.
+  apply (pipeline_variants_agree (b_gi b) (wf_no_start_in_rhs _ Hwf) (wf_rule0_lhs _ Hwf) (wf_no_eof_in_rhs _ Hwf) (ex_intro _ _ (wf_rule0_rhs _ Hwf))
+           (wf_nsyms _ Hwf) (wf_lhs_ok _ Hwf) t (text_tables s b t H)).
+Qed.
